@@ -97,6 +97,10 @@ def gen_case(r):
     route = r.choice(['map-new'] * 5 + ['raw-append', 'raw-append', 'raw-insert0', 'lead-comment', 'trail-comment', 'lead-comment', 'construct', 'map-existing'])
     case['route'] = route
     case['touch_first'] = r.random() < 0.4
+    if r.random() < 0.2:
+        # a standalone comment is the first entry of the owner's meta block, indented on its own terms: the rule is about
+        # the meta ITEMS (or, without items, the parent), never about a comment that happens to stand first
+        case['comment_entry'] = r.choice([' ', '      ', '\t\t', '   '])
     if case['owner'] == 'posting' and r.random() < 0.3:
         # the posting's own indent is changed after parsing (value setter, or the Indent node replaced): the rule uses
         # the parent indent current at insertion time
@@ -219,6 +223,8 @@ def run_case(case, lock=None, count=None):
     if isinstance(entry, models.Transaction):
         for p in entry.raw_postings:
             p.indent_by = iby
+    if case.get('comment_entry') is not None:
+        owner.raw_meta_with_comments.insert(0, models.BlockComment.from_value('entry', indent=case['comment_entry']))
     if case.get('reindent') and case['owner'] == 'posting':
         how, new = case['reindent']
         if how == 'value':
